@@ -94,7 +94,7 @@ theorem C03_gemfile (ℓ : Gemfile.Layout) (secs : List Gemfile.GSec) (hwf : Gem
   unfold Gemfile.render
   rw [scan_unlines _ _ _ hclean hl]
   simp only [Gemfile.fileLines, Gemfile.gemSections_body ℓ.lead secs hwf 0 none [], Gemfile.flush, List.nil_append,
-    Gemfile.pkgsOf_toSec secs hwf]
+    Gemfile.pkgsOf_toSec secs hwf, Bool.false_eq_true, if_false]
 
 /-- non-vacuity: a GIT and a GEM section (three gems, one with a platform, dependency lines below them), the
 usual trailing sections, and a non-source section whose four-space entry is NOT an installed gem, in last position -/
@@ -620,7 +620,7 @@ theorem C03_gomod_model_semantics (d : GoMod.Doc) :
   -- the three intermediate maps
   let es0 := d.requires.map fun r => (GoMod.keyOf r, (⟨r.1, trimPrefixV r.2⟩ : NV))
   let m0 := insertAll es0 []
-  let m1 := m0.map fun kv => d.replaces.foldl GoMod.step kv
+  let m1 := m0.map fun kv => (GoMod.ordered d).foldl GoMod.step kv
   let sv := GoMod.stdlibVersion d
   let m2 := if sv.isEmpty then m1 else set m1 GoMod.stdlibKey ⟨"stdlib".toList, sv⟩
   let es3 := m2.map fun kv => ((kv.2.name, kv.2.version), kv.2)
